@@ -8,10 +8,13 @@ import (
 	mrand "math/rand"
 	"math/rand/v2"
 	"os"
+	"runtime"
 	"runtime/debug"
 	"sort"
 	"strconv"
 	"strings"
+	"sync"
+	"sync/atomic"
 	"testing"
 	"testing/synctest"
 	"time"
@@ -224,6 +227,7 @@ type Report struct {
 	Violations []Replay            `json:"violations"`
 	OtherProps map[string]int      `json:"other_property_violations"`
 	Infra      []string            `json:"infra"`
+	Hung       bool                `json:"hung"`
 	Samples    []json.RawMessage   `json:"samples"`
 	Components map[string][]string `json:"components"`
 }
@@ -293,10 +297,42 @@ func Worker(t *testing.T, w World) {
 	sigs := map[uint64]bool{}
 	seenFP := map[string]bool{}
 	start := time.Now()
+	// real-time watchdog (outside any bubble): a run that does not finish is infrastructure
+	// trouble or a spin loop in the code under test; either way it is not a verdict. What was
+	// collected so far is written out and the process ends.
+	var curIdx atomic.Int64
+	var curStart atomic.Int64
+	curStart.Store(time.Now().UnixNano())
+	var repMu sync.Mutex
+	go func() {
+		for {
+			time.Sleep(2 * time.Second)
+			if time.Since(time.Unix(0, curStart.Load())) > 240*time.Second {
+				buf := make([]byte, 1<<20)
+				n := runtime.Stack(buf, true)
+				st := string(buf[:n])
+				if i := strings.Index(st, "simrt.(*Sim).Run"); i > 0 && len(st) > 6000 {
+					st = st[:6000]
+				}
+				fmt.Fprintf(os.Stderr, "HANG run=%d\n%s\n", curIdx.Load(), st)
+				repMu.Lock()
+				rep.Infra = append(rep.Infra, fmt.Sprintf("run %d did not finish within 240 s of wall time (hang or spin loop); worker stopped", curIdx.Load()))
+				rep.Hung = true
+				rep.WallSec = time.Since(start).Seconds()
+				b, _ := json.Marshal(rep)
+				_ = os.WriteFile(out, b, 0o644)
+				os.Exit(0)
+			}
+		}
+	}()
 	for idx := worker; rep.Runs < maxRuns; idx += workers {
 		if time.Since(start) > budget {
 			break
 		}
+		curIdx.Store(int64(idx))
+		curStart.Store(time.Now().UnixNano())
+		repMu.Lock()
+		repMu.Unlock()
 		sc, res := RunOne(t, w, prop, tier, seed, idx, false)
 		queue := []struct {
 			sc  any
@@ -308,6 +344,7 @@ func Worker(t *testing.T, w World) {
 				if time.Since(start) > budget*2 {
 					break
 				}
+				curStart.Store(time.Now().UnixNano())
 				pc := &simrt.PrefixChooser{Prefix: res.Trace, Rand: simrt.NewRandChooser(ss + uint64(k)*7919 + 1)}
 				dres := w.Run(t, d, pc, false)
 				dres.Trace = pc.Trace
